@@ -30,6 +30,10 @@ class VSelector:
         events = self._real.select(0)
         loop = self._loop_ref[0]
         loop.iterations += 1
+        if not events and loop.grace and len(self._real.get_map()) > 1:
+            # real sockets / ptys are registered (loopback peers inside this process): give the kernel a moment of REAL
+            # time to deliver before concluding that nothing is ready and jumping the virtual clock
+            events = self._real.select(loop.grace)
         if events:
             return events
         if timeout is None:
@@ -60,8 +64,9 @@ class InlineExecutor(concurrent.futures.ThreadPoolExecutor):
 
 
 class VLoop(asyncio.SelectorEventLoop):
-    def __init__(self, *, inline_executor: bool = True) -> None:
+    def __init__(self, *, inline_executor: bool = True, grace: float = 0.0) -> None:
         ref: list = [None]
+        self.grace = grace
         self.vtime = 0.0
         self.iterations = 0
         self.deadlocks = 0
@@ -81,9 +86,10 @@ class VLoop(asyncio.SelectorEventLoop):
                              "task": repr(context.get("task") or context.get("future"))[:200]})
 
 
-def run_virtual(coro_factory, *, inline_executor: bool = True):
-    """Run coro_factory() on a fresh VLoop; returns (result, loop).  LogicalDeadlock propagates as result."""
-    loop = VLoop(inline_executor=inline_executor)
+def run_virtual(coro_factory, *, inline_executor: bool = True, grace: float = 0.0):
+    """Run coro_factory() on a fresh VLoop; returns (result, loop).  LogicalDeadlock propagates as result.
+    grace > 0: the loop serves real loopback sockets (see VSelector.select)."""
+    loop = VLoop(inline_executor=inline_executor, grace=grace)
     asyncio.set_event_loop(loop)
     try:
         try:
